@@ -211,6 +211,8 @@ fn add_stats(rep: &mut Report, out: &HOutcome) {
     rep.add("records_delivered", s.records_delivered as u64);
     rep.add("seeks_in_buffer", s.seeks_in_buffer as u64);
     rep.add("seeks_real", s.seeks_real as u64);
+    rep.add("seek_targets_in_buffered_window", s.seek_targets_in_window as u64);
+    rep.add("seek_targets_outside_buffered_window", s.seek_targets_outside_window as u64);
     rep.add("positions_checked", s.positions_checked as u64);
     rep.add("invariant_evaluations", s.inv_checks as u64);
     rep.add("slots_reverified", s.slots_reverified as u64);
